@@ -34,6 +34,12 @@ vars == <<rpc, gen, memberID, g, fn, tracked, apc, held, started, cgdone, closeR
 
 Fns(n) == { f \in DOMAIN fn : f[1] = n }
 Live(n) == \E f \in Fns(n) : fn[f] = "running"
+\* Lax: drop the guards that the code does not really have (a join already on its way when Close is called still
+\* creates a Generation; the heartbeat loop's select may take the ticker once more after the context is done).  The
+\* strict forms are the design intent; MC_lax.cfg checks the same invariants with the guards dropped (Lax <- LaxOn),
+\* which is what the recorded traces show (GroupTrace counts JoinOK_lax / HeartbeatSend_lax).
+Lax == FALSE
+LaxOn == TRUE
 NewG == [done |-> FALSE, closed |-> FALSE, routines |-> 0, joined |-> FALSE, closeWaiting |-> FALSE]
 
 ObsInit == [offered |-> 0,            \* highest generation handed out by Next
@@ -88,7 +94,7 @@ JoinOKx(lax) ==
   /\ rpc' = "offer"
   /\ Ev("created", gen + 1)
   /\ UNCHANGED <<apc, held, cgdone, closeRet, lastErr, faults, leaves, hbOut>>
-JoinOK == JoinOKx(FALSE)
+JoinOK == JoinOKx(Lax)
 
 \* With WatchPartitionChanges the run loop starts, after the heartbeat loop and before it offers the generation,
 \* one partition watcher per topic through the same Generation.Start: functions <<gen, -1>>, <<gen, -2>>, ...
@@ -116,7 +122,7 @@ JoinFailx(kind, gotID, lax) ==
   /\ rpc' = IF kind = "rebalance" THEN "reporterr" ELSE "leave"
   /\ Ev(IF kind = "rebalance" THEN "joinfailRebalance" ELSE "joinfailOther", gen)
   /\ UNCHANGED <<gen, g, fn, tracked, apc, held, started, cgdone, closeRet, leaves, hbOut>>
-JoinFail(kind, gotID) == JoinFailx(kind, gotID, FALSE)
+JoinFail(kind, gotID) == JoinFailx(kind, gotID, Lax)
 
 \* select { cg.done -> gen.close(), ErrGroupClosed ; cg.next <- &gen }
 Offer ==
@@ -169,7 +175,7 @@ HeartbeatSendx(n, lax) ==
   /\ hbOut' = n
   /\ Ev("heartbeat", n)
   /\ UNCHANGED <<rpc, gen, memberID, g, fn, tracked, apc, held, started, cgdone, closeRet, lastErr, faults, leaves>>
-HeartbeatSend(n) == HeartbeatSendx(n, FALSE)
+HeartbeatSend(n) == HeartbeatSendx(n, Lax)
 
 \* the coordinator answers the heartbeat: ok, or an error (rebalance, illegal generation, dropped): the loop returns
 HeartbeatReply(ok) ==
